@@ -269,7 +269,7 @@ func c06Eval(tier string, i int) CaseResult {
 		r.Start()
 		rp := NewRawPeer(r)
 		if err := rp.Handshake(); err != nil {
-			viol = append(viol, V("harness", "%v", err))
+			viol = append(viol, V("setup-handshake-fails", "setting the scenario up with well-behaved peers fails: %v", err))
 			return
 		}
 		if r.Fab != nil && cs.Mode != "sl" && cs.Mode != "sd" && cs.Mode != "ls" {
@@ -345,12 +345,12 @@ func c06Concurrent(prefix []int, mode string, bad string) explore.Outcome {
 		r.Start()
 		good, evil := NewRawPeer(r), NewRawPeer(r)
 		if err := good.Handshake(); err != nil {
-			viol = append(viol, V("harness", "%v", err))
+			viol = append(viol, V("setup-handshake-fails", "setting the scenario up with well-behaved peers fails: %v", err))
 			return
 		}
 		if mode != "io" {
 			if err := evil.Handshake(); err != nil {
-				viol = append(viol, V("harness", "%v", err))
+				viol = append(viol, V("setup-handshake-fails", "setting the scenario up with well-behaved peers fails: %v", err))
 				return
 			}
 		} else {
